@@ -213,3 +213,14 @@ check("C08", "exploration",
       "trusted: TLC; the classification function (tolerance 0 for operators; 1e-12 or half the declared precision plus 4 ulp for generated and "
       "evaluated designs); scripted random draws; boxes up to 1e12",
       "TLC class-abstraction model + TLC validation of class-abstracted operator / generator / run observations", "DESIGN.md 5/C08")
+
+check("C15", "exploration",
+      "Contract monitor, the weakest use of the specification in this suite (DESIGN.md section 8): the formulas are transcendental and the box is "
+      "continuous, so there is no state space and nothing for TLC to enumerate. BenchTrace.tla states the three clauses of the property in fixed "
+      "point (units of 1e-6, tolerance 1e-3): one finite real cost, documented optimum value at the documented coordinates, no observed point "
+      "better than the documented optimum for the declared direction. The driver evaluates each of the 23 single-objective classes in every "
+      "accepted dimension with Python floats and numpy scalars at the documented optimum and neighbours, centre, corners, random points and the "
+      "end points of bounded L-BFGS-B searches (which actually look for something better), and TLC judges every observation. Detects wrong "
+      "constants / signs / directions and crashes on plain floats; cannot prove absence of a better point.",
+      "trusted: TLC for the inequalities; numerical search (sampling + local optimisation) as the only exploration; libm",
+      "TLC-evaluated contract clauses over sampled and locally optimised evaluations (no model)", "DESIGN.md 5/C15")
